@@ -8,7 +8,6 @@ import (
 	"go/types"
 	"reflect"
 	"regexp"
-	"regexp/syntax"
 	"time"
 	"strings"
 )
@@ -187,13 +186,6 @@ func init() {
 	reg("regexp.MustCompile", reCompile(true))
 	reg("regexp.QuoteMeta", func(fr *frame, args []value) value {
 		return regexp.QuoteMeta(concStr(fr, args[0], "regexp.QuoteMeta"))
-	})
-	reg("regexp/syntax.Parse", func(fr *frame, args []value) value {
-		re, err := syntax.Parse(concStr(fr, args[0], "syntax.Parse"), syntax.Flags(asInt64(args[1])))
-		if err != nil {
-			return tuple{native{v: (*syntax.Regexp)(nil)}, fr.newError(err.Error())}
-		}
-		return tuple{native{v: re}, iface{}}
 	})
 }
 
